@@ -184,9 +184,9 @@ func genMergeCase(r *rand.Rand, idx int, tier string, tmp string) *mergeCase {
 		return true
 	}
 	m.OutMode = gen.SmallModes[r.Intn(len(gen.SmallModes))]
-	thorough := tier == "thorough"
+	forced := idx % 500
 	switch {
-	case idx == 0: // nothing survives
+	case forced == 0: // nothing survives
 		m.Shape = "zero-survivors"
 		k := 1 + r.Intn(3)
 		for i := 0; i < k; i++ {
@@ -196,7 +196,7 @@ func genMergeCase(r *rand.Rand, idx int, tier string, tmp string) *mergeCase {
 				return m
 			}
 		}
-	case idx == 1: // inputs with zero documents mixed in
+	case forced == 1: // inputs with zero documents mixed in
 		m.Shape = "empty-inputs"
 		for i := 0; i < 3; i++ {
 			n := []int{0, 5, 0}[i]
@@ -205,14 +205,14 @@ func genMergeCase(r *rand.Rand, idx int, tier string, tmp string) *mergeCase {
 				return m
 			}
 		}
-	case idx == 2: // single input, nothing dropped (identity)
+	case forced == 2: // single input, nothing dropped (identity)
 		m.Shape = "single-input"
 		n := 3 + r.Intn(40)
 		s, err := buildInput(r, sch, n, "i0", tmp, 1)
 		if !add(s, err, nil) {
 			return m
 		}
-	case idx == 3 || idx == 4 || (thorough && idx < 24): // jumbo: >1024 survivors in a doc-value field
+	case forced == 3 || forced == 4: // jumbo: >1024 survivors in a doc-value field
 		m.Shape = "jumbo"
 		m.OutMode = []uint32{1025, 1024, 100}[r.Intn(3)]
 		k := 2 + r.Intn(2)
@@ -222,14 +222,14 @@ func genMergeCase(r *rand.Rand, idx int, tier string, tmp string) *mergeCase {
 			docs, _ := gen.JumboBatch(rand.New(rand.NewSource(r.Int63())), n, fmt.Sprintf("j%d", i), tagDV)
 			s, err := gen.BuildSeg(docs, []uint32{1025, 1024, 64}[r.Intn(3)])
 			var d *roaring.Bitmap
-			if idx != 4 {
+			if forced != 4 {
 				d = gen.Drops(r, n, pick(r, 0, 2, 5, 6))
 			}
 			if !add(s, err, d) {
 				return m
 			}
 		}
-	case idx == 5: // everything survives, identical field lists: byte-copy stored path
+	case forced == 5: // everything survives, identical field lists: byte-copy stored path
 		m.Shape = "copy-path"
 		k := 2 + r.Intn(2)
 		for i := 0; i < k; i++ {
